@@ -492,6 +492,7 @@ type Rig struct {
 	// durable image's height and tip (Durable)
 	CommitMode bool
 	OnFlag     func() bool
+	OnAfter    func() // called when the observation of a store operation is complete
 	Durable    func() string
 	Tips       []int // working tip after every store operation
 }
@@ -503,7 +504,14 @@ type twinInfo struct {
 
 // NewRig opens a fresh node over db.
 func NewRig(c *vh.Case, t *chainx.Tree, ids *IDs, decls map[int]*Decl, db chain.DB) (*Rig, error) {
-	store, tip, err := chain.NewDBStore(db, t.Net.N, t.Net.Genesis, nil)
+	return NewRigWith(c, t, ids, decls, db, func() (*chain.DBStore, consensus.State, error) {
+		return chain.NewDBStore(db, t.Net.N, t.Net.Genesis, nil)
+	})
+}
+
+// NewRigWith is NewRig with a custom way of opening the store (e.g. at a checkpoint).
+func NewRigWith(c *vh.Case, t *chainx.Tree, ids *IDs, decls map[int]*Decl, db chain.DB, open func() (*chain.DBStore, consensus.State, error)) (*Rig, error) {
+	store, tip, err := open()
 	if err != nil {
 		return nil, err
 	}
@@ -539,6 +547,9 @@ func (r *Rig) after(apply bool, s consensus.State, blockID types.BlockID, ds []M
 			r.Panicked = true
 		}
 		return
+	}
+	if r.OnAfter != nil {
+		defer r.OnAfter()
 	}
 	id, ok := r.T.Lookup(blockID)
 	if !ok {
